@@ -17,7 +17,7 @@ RULE = ('Grid: scope kind (4) x pattern kind (5) x alias assignment {none, A, B}
         'in its own domain, nested re-binding, legal sibling re-use). Every case is realised three ways: text through '
         'the parser, construction through the public API, and but() from a valid neighbour. Non-trivial = >= 1 alias '
         'and >= 1 reference; distinct = (scope, pattern, alias map, reference map, placement).')
-RULE_ADDED = ' Since the seeding rounds: references also inside indices, index chains, indexed domains, range bounds, set elements and function arguments; realisation but-deep (predicates put in through event.but, copies travelling up through but()).'
+RULE_ADDED = ' Since the seeding rounds: references also inside indices, index chains, indexed domains, range bounds, set elements and function arguments; realisation but-deep (predicates put in through event.but, copies travelling up through but()); own variable in its domain behind another variable.'
 ASSUMPTIONS = ['not judged: one alias on two alternatives of one disjunction, an alias bound by the terminator that a '
                'pattern event also binds, a name used both as alias and bound variable, a nested same-name quantifier '
                'inside a quantifier domain']
@@ -74,6 +74,17 @@ HYGIENE = (
     ('variable-in-own-domain', ('quant', 'forall', 'i', ('set', (A.var('i'), A.num('1'))), ('bin', '>', A.var('i'), A.num('0')))),
     ('variable-in-own-domain-index', ('quant', 'exists', 'i', ('index', A.fld('ms'), A.var('i')), ('bin', '>', A.var('i'), A.num('0')))),
     ('variable-in-own-domain-range', ('quant', 'exists', 'i', ('range', A.num('0'), A.var('i'), False, False), ('bin', '>', A.var('i'), A.num('0')))),
+    # ... with another variable standing before it in the domain (set, range, index sum, deeper)
+    ('variable-in-own-domain-after-outer-variable', ('quant', 'forall', 'j', A.fld('xs'), ('quant', 'exists', 'i', ('set', (A.var('j'), A.var('i'))),
+                                                                         ('bin', '>', A.var('i'), A.num('0'))))),
+    ('variable-in-own-range-after-outer-variable', ('quant', 'forall', 'j', A.fld('xs'), ('quant', 'exists', 'i', ('range', A.var('j'), A.var('i'), False, False),
+                                                                        ('bin', '>', A.var('i'), A.num('0'))))),
+    ('variable-in-own-index-after-outer-variable', ('quant', 'forall', 'j', A.fld('xs'), ('quant', 'exists', 'i', ('index', A.fld('ms'), ('bin', '+', A.var('j'), A.var('i'))),
+                                                                        ('bin', '>', A.var('i'), A.num('0'))))),
+    ('variable-last-of-three-in-own-domain', ('quant', 'forall', 'j', A.fld('xs'), ('quant', 'exists', 'i', ('set', (A.var('j'), A.fld('x'), ('bin', '+', A.var('j'), A.var('i')))),
+                                                                  ('bin', '>', A.var('i'), A.num('0'))))),
+    ('outer-variable-twice-in-inner-domain-legal', ('quant', 'forall', 'j', A.fld('xs'), ('quant', 'exists', 'i', ('set', (A.var('j'), ('bin', '+', A.var('j'), A.num('1')))),
+                                                                        ('bin', '>', A.var('i'), A.num('0'))))),
     ('nested-rebinding', ('quant', 'forall', 'i', A.fld('xs'), ('bin', 'and', ('bin', '>', A.var('i'), A.num('0')),
                           ('quant', 'exists', 'i', A.fld('ys'), ('bin', '<', A.var('i'), A.num('0')))))),
     ('nested-rebinding-deep', ('quant', 'forall', 'i', A.fld('xs'), ('quant', 'forall', 'j', A.fld('ys'),
